@@ -1702,6 +1702,17 @@ package ecs
 //@   ensures forall i eid :: {w.entityPool.eused[i]} i != entity.id ==> w.entityPool.eused[i] == old(w.entityPool.eused[i])
 //@   ensures poolInv(&w.entityPool) && issuedInv(&w.entityPool) && lockInv(&w.locks) && !isLocked(w)
 //@   ensures w.entities[int(entity.id)].arch == nil
+// the removal event (C11): exactly one Notify iff the rule selects a removal event; it carries the entity, the table's
+// component set as Removed, its IDs, its relation component and target as the old ones, and the removal type bits
+//@   ensures[count] w.listener != nil ==> notifyCount[w.listener.val] == old(notifyCount[w.listener.val]) + ite(old(remSelected(w, w.entities[int(entity.id)].arch)), 1, 0)
+//@   ensures[event] w.listener != nil && old(remSelected(w, w.entities[int(entity.id)].arch)) ==>
+//@      notifyLast[w.listener.val] == old(evtId(mk(EntityEvent, exchNewRel(w.entities[int(entity.id)].arch), nil, nil, remIDs(w.entities[int(entity.id)].arch), zeroMaskV(), w.entities[int(entity.id)].arch.archetypeAccess.Mask, entity,
+//@           w.entities[int(entity.id)].arch.archetypeAccess.RelationTarget, remBits(w.entities[int(entity.id)].arch))))
+
+//@ pred remBits(arch *archetype) event.Subscription = evBits(false, true, false, len(arch.node.nodeData.Ids) > 0, arch.archetypeAccess.HasRelationComponent, arch.archetypeAccess.HasRelationComponent)
+//@ pred remIDs(arch *archetype) []ID = ite(len(arch.node.nodeData.Ids) > 0, arch.node.nodeData.Ids, nil)
+//@ pred remSelected(w *World, arch *archetype) bool =
+//@   subRuleV(lsSubs(w.listener) & remBits(arch), arch.archetypeAccess.Mask, false, arch.archetypeAccess.Mask, true, lsComps(w.listener), exchNewRel(arch), nil)
 
 // ---------------------------------------------------------------------------------------------
 // C17 / C02 / C09 — query construction, entity dump and load
